@@ -574,6 +574,7 @@ Mon0(m, e) ==
     [] e.e = "alloc" -> OnAlloc(m, e)
     [] e.e = "dealloc" -> OnDealloc(m, e)
     [] e.e = "harness-thread-panicked" -> Flag(m, TRUE, "C19", "a thread panicked while running or tearing down its thread-locals")
+    [] e.e = "probe" /\ Get(e, "what", "") = "teardown-alloc" -> Flag(m, ~e.ok, "C19", "an object created while the thread-locals are being destroyed does not hold its value")
     [] e.e = "harness-invalid-step" -> Flag(m, TRUE, "HARNESS", "a scripted thread step was not executable")
     [] OTHER -> m
 
